@@ -262,6 +262,63 @@ func c16TxCheck(c c16Tx) (fs []rep.Finding) {
 			}
 		}
 	})
+	// a wrapper value that is KEPT: marshal through it, edit the transaction in place (counts
+	// unchanged), marshal through the same wrapper again - the second document is the edited transaction
+	q("kept-wrapper", func() {
+		t2 := c16Build(c)
+		w := t2.NodeJSON()
+		lst2 := bt.Txs{t2}
+		lw := lst2.NodeJSON()
+		if _, err := json.Marshal(w); err != nil {
+			return
+		}
+		_, _ = json.Marshal(lw)
+		t2.Version ^= 0x0100
+		t2.LockTime++
+		if len(t2.Outputs) > 0 {
+			t2.Outputs[0].Satoshis += 3
+		}
+		for _, in := range t2.Inputs {
+			in.UnlockingScript = bscript.NewFromBytes(append([]byte{0x46}, fill(0x46, 0x77)...))
+		}
+		if b, err := json.Marshal(w); err == nil {
+			back := bt.NewTx()
+			if err := json.Unmarshal(b, back.NodeJSON()); err != nil || sameTx(t2, back) != "" {
+				fs = append(fs, rep.F("Tx.node|kept-wrapper-stale", "a NodeJSON() wrapper marshalled a second time, after the transaction was edited in place, does not give the edited transaction"))
+			}
+		}
+		if b, err := json.Marshal(lw); err == nil {
+			var back bt.Txs
+			if err := json.Unmarshal(b, back.NodeJSON()); err != nil || len(back) != 1 || sameTx(t2, back[0]) != "" {
+				fs = append(fs, rep.F("Txs.node|kept-wrapper-stale", "a list wrapper marshalled a second time, after an element was edited in place, does not give the edited transaction"))
+			}
+		}
+		if len(t2.Outputs) > 0 {
+			o := t2.Outputs[0]
+			ow := o.NodeJSON()
+			if _, err := json.Marshal(ow); err == nil {
+				o.Satoshis += 5
+				if b, err := json.Marshal(ow); err == nil {
+					var back bt.Output
+					if err := json.Unmarshal(b, back.NodeJSON()); err != nil || back.Satoshis != o.Satoshis {
+						fs = append(fs, rep.F("Output.node|kept-wrapper-stale", "an output wrapper marshalled again after the amount changed gives the old amount"))
+					}
+				}
+			}
+			u := &bt.UTXO{TxID: txid32(0x31), Vout: 2, Satoshis: o.Satoshis, LockingScript: o.LockingScript}
+			uw := u.NodeJSON()
+			if _, err := json.Marshal(uw); err == nil {
+				u.Satoshis += 5
+				u.Vout++
+				if b, err := json.Marshal(uw); err == nil {
+					var back bt.UTXO
+					if err := json.Unmarshal(b, back.NodeJSON()); err != nil || back.Satoshis != u.Satoshis || back.Vout != u.Vout {
+						fs = append(fs, rep.F("UTXO.node|kept-wrapper-stale", "a UTXO wrapper marshalled again after the UTXO changed gives the old values"))
+					}
+				}
+			}
+		}
+	})
 	q("Txs.node", func() {
 		tx2 := c16Build(c16Tx{R: c.R, Signed: (c.Signed + 1) % 4, Script: c.Script + 1, Amt: c.Amt + 1})
 		list := bt.Txs{tx, tx2}
@@ -433,12 +490,80 @@ func c16Boundary() []uint64 {
 	return out
 }
 
+// c16List: lists of N distinct transactions / UTXOs through the list encoders and decoders.
+type c16List struct {
+	N int `json:"n"`
+}
+
+func c16ListCheck(c c16List) (fs []rep.Finding) {
+	var txs bt.Txs
+	var us bt.UTXOs
+	for i := 0; i < c.N; i++ {
+		t := c16Build(c16Tx{R: txRecipe{V: 1, LT: uint32(i), NIn: 1 + i%2, NOut: 1 + i%3, Vout: uint32(i), Seq: 0xffffffff, SLen: 2, PrevSats: 5, PrevLen: 25, OLen: 1}, Signed: 2, Script: i % 3, Amt: uint64(1000 + i)})
+		txs = append(txs, t)
+		id := txid32(byte(i))
+		id[5] = byte(i >> 8)
+		us = append(us, &bt.UTXO{TxID: id, Vout: uint32(i), Satoshis: uint64(7 + i), LockingScript: bscript.NewFromBytes(refP2PKH(fill(20, byte(i))))})
+	}
+	f := rep.Guard(func() {
+		cmpT := func(name string, back []*bt.Tx, err error) {
+			if err != nil || len(back) != len(txs) {
+				fs = append(fs, rep.F(name+"|list-length", fmt.Sprintf("%d transactions came back as %d (err=%v)", len(txs), len(back), err)))
+				return
+			}
+			for i := range txs {
+				if back[i] == nil || sameTx(txs[i], back[i]) != "" {
+					fs = append(fs, rep.F(name+"|list-element", fmt.Sprintf("element %d of %d differs after the round trip", i, len(txs))))
+					return
+				}
+			}
+		}
+		if b, err := json.Marshal(txs.NodeJSON()); err == nil {
+			var back bt.Txs
+			err := json.Unmarshal(b, back.NodeJSON())
+			cmpT("Txs.node", back, err)
+		}
+		if b, err := json.Marshal([]*bt.Tx(txs)); err == nil {
+			var back []*bt.Tx
+			err := json.Unmarshal(b, &back)
+			cmpT("[]Tx.json", back, err)
+		}
+		cmpU := func(name string, back []*bt.UTXO, err error) {
+			if err != nil || len(back) != len(us) {
+				fs = append(fs, rep.F(name+"|list-length", fmt.Sprintf("%d UTXOs came back as %d (err=%v)", len(us), len(back), err)))
+				return
+			}
+			for i := range us {
+				if back[i] == nil || back[i].Satoshis != us[i].Satoshis || back[i].Vout != us[i].Vout || !bytes.Equal(back[i].TxID, us[i].TxID) || !bytes.Equal(scriptBytes(back[i].LockingScript), scriptBytes(us[i].LockingScript)) {
+					fs = append(fs, rep.F(name+"|list-element", fmt.Sprintf("element %d of %d differs after the round trip", i, len(us))))
+					return
+				}
+			}
+		}
+		if b, err := json.Marshal(us.NodeJSON()); err == nil {
+			var back bt.UTXOs
+			err := json.Unmarshal(b, back.NodeJSON())
+			cmpU("UTXOs.node", back, err)
+		}
+		if b, err := json.Marshal([]*bt.UTXO(us)); err == nil {
+			var back []*bt.UTXO
+			err := json.Unmarshal(b, &back)
+			cmpU("[]UTXO.json", back, err)
+		}
+	})
+	if f != nil {
+		fs = append(fs, *f)
+	}
+	return
+}
+
 func init() {
 	p := register(&Prop{ID: "C16", Level: "exploration",
-		Rule: "exhaustive: (amounts) every amount 0..2,000,000 (quick) / 0..100,000,000 (thorough) and ~8,300 decimal-boundary amounts up to 21e14 through Output and UTXO in both JSON dialects (marshal -> unmarshal -> equal satoshis/script/txid/vout); (transactions) product of shapes nIn 0..3 x nOut 0..3 x signing state {unsigned(nil scripts), first input only, all, empty scripts} x 59 output-script kinds (7 multisig-shaped scripts whose counts do not match their keys, P2PKH, empty, data with pushes of 1..5 bytes, multisig, inscription, odd pushes, 300 bytes, 12 scripts that end inside a push: every partial PUSHDATA1/2/4 length field and short payloads, and the inscription template with each token replaced by an empty PUSHDATA1 / PUSHDATA4 push) x boundary amounts x version/locktime values, plus coinbase-shaped transactions (null outpoint) in every signing state, each marshalled as Tx (library and node dialect), Txs list (node), []*Tx, per-output Output (both), UTXOs list (node) and []*UTXO (also with one outpoint named three times), a Tx variable decoded into twice (both dialects), the node-dialect lists also decoded into a list variable that was decoded into before (shorter, longer and empty lists): marshal must return (value or error, no panic) and the unmarshalled object must have identical Bytes()/TxID/scripts/satoshis. distinct_nontrivial = distinct amounts + distinct transaction serialisations round-tripped",
+		Rule: "exhaustive: (amounts) every amount 0..2,000,000 (quick) / 0..100,000,000 (thorough) and ~8,300 decimal-boundary amounts up to 21e14 through Output and UTXO in both JSON dialects (marshal -> unmarshal -> equal satoshis/script/txid/vout); (transactions) product of shapes nIn 0..3 x nOut 0..3 x signing state {unsigned(nil scripts), first input only, all, empty scripts} x 59 output-script kinds (7 multisig-shaped scripts whose counts do not match their keys, P2PKH, empty, data with pushes of 1..5 bytes, multisig, inscription, odd pushes, 300 bytes, 12 scripts that end inside a push: every partial PUSHDATA1/2/4 length field and short payloads, and the inscription template with each token replaced by an empty PUSHDATA1 / PUSHDATA4 push) x boundary amounts x version/locktime values, plus coinbase-shaped transactions (null outpoint) in every signing state, each marshalled as Tx (library and node dialect), Txs list (node), []*Tx, per-output Output (both), UTXOs list (node) and []*UTXO (also with one outpoint named three times), a Tx variable decoded into twice (both dialects), the node-dialect lists also decoded into a list variable that was decoded into before (shorter, longer and empty lists): wrapper values (tx, list, output, UTXO) kept across an in-place edit and marshalled again; lists of 0..1000 distinct transactions / UTXOs (27 lengths around powers of two) through all four list forms; marshal must return (value or error, no panic) and the unmarshalled object must have identical Bytes()/TxID/scripts/satoshis. distinct_nontrivial = distinct amounts + distinct transaction serialisations round-tripped",
 	})
 	sA := NewSpace(p, "amounts", c16AmtCheck)
 	sT := NewSpace(p, "transactions", c16TxCheck)
+	sL := NewSpace(p, "lists", c16ListCheck)
 	p.Run = func(r *rep.Run, thorough bool) {
 		n := uint64(2_000_001)
 		if thorough {
@@ -492,6 +617,11 @@ func init() {
 			}
 			return fs
 		}}).Slice(r, cases)
+		var lcs []c16List
+		for _, n := range []int{0, 1, 2, 3, 7, 8, 9, 15, 16, 17, 31, 32, 33, 63, 64, 65, 67, 71, 100, 127, 128, 129, 250, 255, 256, 257, 1000} {
+			lcs = append(lcs, c16List{n})
+		}
+		sL.Slice(r, lcs)
 		r.Note("transaction_cases", len(cases))
 		r.Sample("transactions", cases[len(cases)/2])
 	}
